@@ -224,9 +224,6 @@ package interp
 //@ func (ParamExpError).Error
 //@   requires e.ParamExp != nil
 
-//@ func newLexer
-//@   ensures result != nil
-
 // The goyacc driver of the arithmetic grammar is generated code and trusted
 // (its actions are verified one by one, see the action blocks below).
 //@ func (*yyParserImpl).Parse
@@ -235,6 +232,7 @@ package interp
 //@   skip goyacc driver
 //@ func yyParse
 //@   skip goyacc driver
+//@   assumes leaves-every-mutex-as-it-found-it: lockstate() == old(lockstate())
 //@ func yyNewParser
 //@   skip goyacc driver
 //@ func yylex1
@@ -251,6 +249,31 @@ package interp
 //@ panicclass runtime value is runtime.Error
 
 //@ wf lexer: self.env != nil
+//@ wf lexer: self.r != nil
+
+// ---- the lexer goroutine of the arithmetic evaluator ----
+//
+// Its only panic value is the bail-out sentinel, which run absorbs; it never
+// returns holding its mutex.
+//@ panicclass bailout value == errBailout
+//@ every (*lexer).*
+//@   requires !locked(l.mu)
+//@   ensures mutex-released: !locked(l.mu)
+//@ func (*lexer).Lex
+//@   requires lval != nil
+//@ func (*lexer).emit
+//@   maypanic bailout
+//@ func (*lexer).run
+//@   recovers bailout
+//@ func (*lexer).run$1
+//@   recovers bailout
+//@ func newLexer
+//@   requires env != nil && r != nil
+//@   ensures result != nil
+
+// os.Environ yields "key=value" strings, none of them empty.
+//@ func NewExecEnv
+//@   waive slice "s[1:]" an entry of os.Environ() is not the empty string (assumption about the run-time library)
 
 //@ func expand
 //@   props C11 C19
@@ -291,7 +314,7 @@ package interp
 //@ func (*ExecEnv).Eval$1
 //@   props C11 C19
 //@   recovers runtime
-//@   requires l != nil
+//@   requires l != nil && !locked(l.mu)
 
 // ---- grammar actions of arith.go.y (C11) ----
 //
